@@ -62,7 +62,7 @@ template<typename T> struct KllSk: QSkBase<T, ds::kll_sketch<T, typename Item<T>
   explicit KllSk(S&& s_): B(std::move(s_)) {}
   // some batches arrive as a sketch of a smaller k (a producer configured more coarsely): the receiver's min_k drops below its k, which its images must carry
   void feed(i64 start, i64 count, i64 pattern) override {
-    if ((pattern & 0x60) == 0x60 && count >= 16 && this->s->get_k() >= 16) { S tmp(static_cast<uint16_t>(std::max<int>(8, this->s->get_k() / 2)), L(), A(ARENA)); for (i64 j = 0; j < count; j++) tmp.update(Item<T>::make(feed_value(start, j, count, pattern))); this->s->merge(tmp); }
+    if ((pattern & 0x30) == 0x30 && count >= 16 && this->s->get_k() >= 16) { S tmp(static_cast<uint16_t>(std::max<int>(8, this->s->get_k() / 2)), L(), A(ARENA)); for (i64 j = 0; j < count; j++) tmp.update(Item<T>::make(feed_value(start, j, count, pattern))); this->s->merge(tmp); }
     else B::feed(start, count, pattern);
   }
   std::string obs(bool det_only) const override { return B::obs(det_only) + " nre=" + d2s(this->s->get_normalized_rank_error(false)) + "/" + d2s(this->s->get_normalized_rank_error(true)); }
